@@ -95,9 +95,10 @@ def layout(script, rng):
             out.append((line, False))
         if rng.random() < 0.15:
             extra = rng.choice(['(echo "a)b(c")', '(echo "semi;colon")', '(echo "esc\\"aped)")', "; ( only a comment", '(echo "")',
-                                '(echo "back\\\\slash")'])
+                                '(echo "back\\\\slash")', '(echo "lone\\backslash (")', '(echo "tab\there")', '(echo "x\\y\\z")', "; comment ending in a backslash \\",
+                                '(echo "two\nlines")'])
             out.append((extra, extra.startswith(";")))
-    joiner = rng.choice(["\n", " ", "\n\n", ""])
+    joiner = rng.choice(["\n", " ", "\n\n", "", "\r\n", "\t", " \r\n "])
     text = ""
     for piece, comment in out:
         text += piece + ("\n" if comment else joiner)
@@ -107,11 +108,14 @@ def layout(script, rng):
 def script_case(args):
     idx, seed, binary, so = args
     rng = random.Random(f"c20-{seed}-{idx}")
-    logic = rng.choice(["QF_UF", "QF_LRA", "QF_LIA"])
-    p, script, checks = gen.history(logic, rng, options=[":print-success true"] if idx % 2 else [])
-    if idx % 3 == 0:
-        script = script.replace("(declare-fun b0 () Bool)", "(declare-fun |b 0(;| () Bool)").replace(" b0", " |b 0(;|")
-    text = layout(script, rng)
+    if isinstance(idx, str):                      # corpus file, as it is
+        text = open(idx).read()
+    else:
+        logic = rng.choice(["QF_UF", "QF_LRA", "QF_LIA"])
+        p, script, checks = gen.history(logic, rng, options=[":print-success true"] if idx % 2 else [])
+        if idx % 3 == 0:
+            script = script.replace("(declare-fun b0 () Bool)", "(declare-fun |b 0(;| () Bool)").replace(" b0", " |b 0(;|")
+        text = layout(script, rng)
     fo, fe, frc = runner.run_opensmt(binary, text, None, timeout=20)
     res = []
     for sched in rng.sample(SCHEDULES, 3):
@@ -157,12 +161,15 @@ def run(tier):
     # ---- pipe vs file on valid scripts
     nscr = 50 if tier == "quick" else 1500
     with mp.Pool(min(common.JOBS, 14)) as pool:
-        sres = pool.map(script_case, [(i, chk.seed, binary, so) for i in range(nscr)], chunksize=2)
+        corpus = sorted(str(f) for f in (common.VERIF / "corpus" / "C20").glob("*.smt2"))
+        sres = pool.map(script_case, [(i, chk.seed, binary, so) for i in corpus + list(range(nscr))], chunksize=2)
     for r in sres:
         chk.case(key=("script", r["idx"]))
         chk.obligation(not r["problems"])
         for pr in r["problems"][:1]:
-            chk.violation("pipe-vs-file", f"pipe mode (read sizes {pr['schedule']}) and file mode differ", {"script": r["script"], **pr})
+            chk.violation("pipe-vs-file", f"pipe mode (read sizes {pr['schedule']}) and file mode differ", {"script": r["script"], **pr},
+                          match_key="instance-name" if "(get-option :instance-name)" in r["script"] and
+                          pr["file_out"].replace("stdin", "").count("\n") == pr["pipe_out"].count("\n") else None)
     chk.assumptions = ["scripts contain no (exit) command (the scanner stops after executing it)",
                        "a frame on which the lexer calls exit(1) ends the run: frames are then compared as a prefix"]
     return chk.finish(rule=f"all byte strings up to length {maxlen if tier != 'quick' else 3} (sampled at 4 in quick) over the "
